@@ -137,6 +137,23 @@ theorem poolNest_length (posH posW : List ℕ) (c ph pw : ℕ) :
   intro _
   simp
 
+theorem denseNestAt_length (npos nIn units : ℕ) :
+    (denseNestAt npos nIn units).length = npos * (units * nIn) := by
+  unfold denseNestAt
+  rw [length_flatMap_const _ _ (units * nIn), List.length_range]
+  intro _; simp [denseNest_length]
+
+/-! ## the dense formula on `lead ++ [n]` shapes -/
+
+theorem denseCount_append (lead : List ℕ) (nIn units : ℕ) :
+    denseCount (lead ++ [nIn]) (lead ++ [units]) = some (prodL lead * nIn * units) := by
+  simp [denseCount, List.getLast?_append]
+
+theorem prodL_replicate_one (k : ℕ) : prodL (List.replicate k 1) = 1 := by
+  induction k with
+  | zero => rfl
+  | succ k ih => simpa [prodL, List.replicate_succ] using ih
+
 /-! ## `np.max` / the `sum(shape > 1) <= 1` assertion on `(1, …, 1, n)` -/
 
 theorem maxL_ones_append (lead n : ℕ) (hn : 1 ≤ n) : maxL (List.replicate lead 1 ++ [n]) = n := by
@@ -158,5 +175,12 @@ theorem atMostOneBig_ones_append (lead n : ℕ) :
   unfold atMostOneBig
   rw [filter_big_ones_append]
   split <;> simp
+
+theorem exactlyOneBig_ones_append (lead n : ℕ) (hn : 2 ≤ n) :
+    exactlyOneBig (List.replicate lead 1 ++ [n]) = true := by
+  unfold exactlyOneBig
+  rw [filter_big_ones_append]
+  have : 1 < n := hn
+  simp [this]
 
 end QKV.C19
